@@ -98,7 +98,11 @@ def parse_reply(txt):
         if kind in 'bs':
             return ('b', raw)
         if kind == 'e':
-            return ('e', raw.decode('utf-8', 'replace'))
+            v = raw.decode('utf-8', 'replace')
+            U = "ERR unknown command '"
+            if U in v:
+                v = v[:v.index(U) + len(U)]
+            return ('e', v)
         raise ValueError(txt)
     r = rec()
     assert pos == len(txt), (txt, pos)
